@@ -11,8 +11,9 @@ CHECKS = {
         "numbers, list-polynomial evaluation homomorphisms) that a valid certificate implies: for every w with Re w <= 0, of any magnitude, "
         "Q(w) != 0 (no pole) and |P(w)| <= (1 + 1e-12)|Q(w)|. The certificates are tied to the generated tables of C01/C02 (same "
         "coefficients). The computed step of the real integrators on y' = lambda y (real and oscillatory-damped, |z| 1e-3..1e8) is compared "
-        "with R(z) evaluated exactly. Not formalised: the elementary step from Adj (I - wA) = Q I to 'the step equals R(z) y0' (written out "
-        "in DESIGN.md).",
+        "with R(z) evaluated exactly. The step itself is proved too (step_is_stability_function, implicit_step_does_not_grow, finite sums over C): for "
+        "ANY stage values solving the stage equations of y' = lambda y, Q(w) y1 = P(w) y0, hence |y1| <= (1 + 1e-12)|y0| for every h*lambda in "
+        "the closed left half-plane. That the integrator's Newton solve returns such stage values is what the comparison checks.",
    note="Trusted: Lean kernel, standard axioms, translate.py (certificates are untrusted inputs, only the table extraction is trusted), "
         "harness. The slack 1e-12 is the effect of rounding the coefficients to float64 (|R| = 1 exactly on the imaginary axis for the "
         "Gauss/Lobatto IIIA/IIIB families); rounding inside the stage solve is covered by the comparison only.",
@@ -109,8 +110,9 @@ CHECKS = {
         "like a sequence (0 <= i < n -> i, -n <= i < 0 -> n + i, else IndexError), iteration visits 0..n-1 once in order, and lookup by time "
         "without dense output returns an index minimising |t_i - q| for EVERY recorded grid (forward, backward, continued, non-uniform) and "
         "every query. Tied to the code by exhaustive index sweeps [-n-2, n+2] (int and numpy integers), bit-exact nearest/slice queries "
-        "and whole-run slices on real recorded grids; the dense branch is compared with the dense solution. Slice ranges are modelled and "
-        "compared, not proved.",
+        "and whole-run slices on real recorded grids; the dense branch is compared with the dense solution. Time slices: for every strictly monotone grid (increasing, or decreasing "
+        "with >= 2 samples), every window with closed or open ends and every sample inside the window, the slice contains that sample and stays "
+        "inside the recorded samples; a slice from the first to the last recorded time returns the whole run (via the bisection theorem of C17).",
    note="Trusted: Lean kernel, standard axioms, harness. numpy's argmin / negative indexing semantics are modelled.",
    technique="Lean 4 proof (case analysis; fold invariant for argmin) + exhaustive/bit-exact differential correspondence",
    design="5 (C19)"),
@@ -195,10 +197,15 @@ CHECKS = {
         "step requested from the integrator equals dt exactly except possibly the last, which is the clipped remainder and shorter "
         "(loop_fixed_requests), the starting step of a call points at the target and keeps the requested magnitude; all C03 grid theorems "
         "apply. Tied to the code by bit-exact replay and by exact comparison of recorded requests with dt for all 10 fixed-step explicit/"
-        "splitting methods. Known finding P8: implicit methods without estimator grow the step. Shift/reflection invariance of the "
-        "states is measured on the implementation (rounding level for fixed-step, tolerance level for adaptive methods), not proved.",
-   note="Trusted: Lean kernel, standard axioms, harness. Not in the model: the states y (hence the shift/reflection clause is a "
-        "measurement), IEEE rounding of t + dt.",
+        "splitting methods. Known finding P8: implicit methods without estimator grow the step. Shift and reflection: proved for the whole "
+        "time-grid state machine (integrate_shift / integrate_refl by induction over the loop: for every system, target, shift, oracle "
+        "and number of steps the shifted / mirrored run records the shifted / mirrored times with the same / mirrored requests, dt, status), "
+        "relative to an integrator whose returns are equivariant; the explicit RK step of an autonomous right-hand side is shown not to depend "
+        "on the time at all (rfl on the step model of C02), and the step of the time-reversed problem f'(t,y) = -f(-t,y) by -h is the mirrored "
+        "step for every f, table, state and step (step_reflection: same increment, negated stages and end slope). That the computed STATES of paired runs agree is measured on the implementation "
+        "(rounding level for fixed-step, tolerance level for adaptive methods).",
+   note="Trusted: Lean kernel, standard axioms, harness. Not in the loop model: the states y (the step model of C02 carries them), IEEE "
+        "rounding of t + dt (shifted floating-point times differ in their last bits; the theorem is over Q).",
    technique="Lean 4 proof (invariant by induction over fuel) on the C03 loop model + exact request comparison + paired runs",
    design="5 (C04)"),
  "C03": dict(
